@@ -82,8 +82,17 @@ Proof.
   apply filter_length_same_members; [apply preserved_nodup; exact W1|apply preserved_nodup; exact W2|apply preserved_members5].
 Qed.
 
+Lemma has_heavy_5 n : has_heavy g1 n = has_heavy g2 n.
+Proof.
+  destruct (has_heavy g1 n) eqn:E1, (has_heavy g2 n) eqn:E2; try reflexivity; exfalso.
+  - apply has_heavy_spec in E1. destruct E1 as (m & I & H). rewrite is_Hn_5 in H. apply nbrs_members5 in I.
+    assert (has_heavy g2 n = true) by (apply has_heavy_spec; eauto). congruence.
+  - apply has_heavy_spec in E2. destruct E2 as (m & I & H). rewrite <- is_Hn_5 in H. apply nbrs_members5 in I.
+    assert (has_heavy g1 n = true) by (apply has_heavy_spec; eauto). congruence.
+Qed.
+
 Lemma ih_removed_5 pres n : ih_removed g1 pres n = ih_removed g2 pres n.
-Proof. unfold ih_removed. rewrite is_Hn_5, mem_preserved_5. reflexivity. Qed.
+Proof. unfold ih_removed. rewrite is_Hn_5, mem_preserved_5, has_heavy_5. reflexivity. Qed.
 
 Theorem implicit_hydrogen_geq5 pres : geq5 (implicit_hydrogen g1 pres) (implicit_hydrogen g2 pres).
 Proof.
@@ -93,7 +102,7 @@ Proof.
   - intros n. rewrite L1, L2. pose proof (lab5 n) as H.
     destruct (label g1 n) as [a|], (label g2 n) as [b|]; try contradiction; [|reflexivity].
     inversion H as [[E1 E2 E3 E4 E5]]. unfold is_H. rewrite E1. destruct (N.eqb (g_el b) EL_H).
-    + rewrite mem_preserved_5. destruct (mem n (preserved g2 pres)); cbn; [rewrite H|]; reflexivity.
+    + rewrite mem_preserved_5, has_heavy_5. destruct (mem n (preserved g2 pres) || negb (has_heavy g2 n)); cbn; [rewrite H|]; reflexivity.
     + cbn. unfold sel5. cbn. rewrite count_h_5, count_pres_5, E1, E2, E3, E4, E5. reflexivity.
   - intros u v. rewrite A1, A2, !ih_removed_5. destruct E as [_ B]. rewrite B. reflexivity.
 Qed.
@@ -126,7 +135,7 @@ Lemma ih_amap_id (g : mgraph) pres : wf g -> amap_id g -> amap_id (implicit_hydr
 Proof.
   intros W A n b L. destruct (implicit_hydrogen_spec g pres W) as (HL & _). rewrite HL in L.
   destruct (label g n) as [a|] eqn:La; [|discriminate]. destruct (is_H a).
-  - destruct (mem n (preserved g pres)); inversion L; subst. apply (A n b La).
+  - destruct (mem n (preserved g pres) || negb (has_heavy g n)); inversion L; subst. apply (A n b La).
   - inversion L; subst. cbn. apply (A n a La).
 Qed.
 
